@@ -104,8 +104,9 @@ def run_driver(name, params, workdir):
             kw["patch_name"] = "patch"
         if params["source"] == "dataframe":
             cat = Catalog.from_dataframe(workdir / "out", pd.DataFrame(cols), **kw)
-        elif params["source"] == "hdf5":
-            cat = Catalog.from_file(workdir / "out", workdir / "input.hdf5", **kw)
+        elif params["source"] in ("hdf5", "fits", "parquet"):
+            ext = {"hdf5": ".hdf5", "fits": ".fits", "parquet": ".pqt"}[params["source"]]
+            cat = Catalog.from_file(workdir / "out", workdir / ("input" + ext), **kw)
         else:
             from yaw.randoms import BoxRandoms
 
@@ -196,14 +197,11 @@ def reference_server(conn):
                 for f in nometa.glob("patch_*/meta.yml"):
                     f.unlink()
                 conn.send(("ok", True))
-            elif cmd == "write_hdf":
-                path, seed, n = args
-                import h5py
+            elif cmd == "write_source":
+                kind, path, seed, n = args
+                from vlib import sources
 
-                cols = make_table(seed, n)
-                with h5py.File(path, "w") as f:
-                    for k, v in cols.items():
-                        f.create_dataset(k, data=v)
+                sources.write_source(kind, path, make_table(seed, n), row_group_size=max(1, n // 3))
                 conn.send(("ok", True))
             elif cmd == "run":
                 name, params, workdir = args
